@@ -219,10 +219,13 @@ func (e *Eng) verifyFunc(fn *ssa.Function, sp *FuncSpec, known *knownFindings) *
 	for _, p := range fn.Params {
 		bindIn(p, p.Name())
 	}
+	var fvRefs []string
 	for _, fv := range fn.FreeVars {
 		// captured variables are pointers to cells
 		t := fv.Type()
 		tv := r.freshOf(st, "fv_"+fv.Name(), t)
+		r.assumeGlobal(app(">", tv.S, "0"))
+		fvRefs = append(fvRefs, tv.S)
 		if pt, ok := t.Underlying().(*types.Pointer); ok && !isAggregate(pt.Elem()) {
 			a := &Addr{kind: aCell, base: tv.S, typ: pt.Elem()}
 			st.env[fv] = a
@@ -233,6 +236,10 @@ func (e *Eng) verifyFunc(fn *ssa.Function, sp *FuncSpec, known *knownFindings) *
 			fr.params[fv.Name()] = tv
 			st.vars["&"+fv.Name()] = tv
 		}
+	}
+	if len(fvRefs) > 1 {
+		// distinct captured variables live in distinct cells
+		r.assumeGlobal(app("distinct", fvRefs...))
 	}
 	r.entry = st.clone()
 	fr.entry = r.entry
